@@ -81,7 +81,8 @@ func init() {
 	add("C11", "C11.commitreceipts (every success return of core.commit has processed the application's receipts for the block: a replayed database rebuilds the validator-set history only through this call, whatever the mode of the node; shared with C10.commitreceipts).", as1(commitReceiptsRule, "C11.commitreceipts"))
 	add("C10", "C10.commitreceipts (see C11.commitreceipts).", as1(commitReceiptsRule, "C10.commitreceipts"))
 	add("C02", "C02.handed (core.commit hands every block it is given to the application before it returns — no node-local mark or mode withholds one: the delivered sequence has no holes; shared with C05.handed).", as1(handedRule, "C02.handed"))
-	add("C05", "C05.handed (see C02.handed: the transactions of a block the hashgraph produced are not withheld from the application).", as1(handedRule, "C05.handed"))
+	add("C05", "C05.handed (see C02.handed: the transactions of a block the hashgraph produced are not withheld from the application, nor handed over twice).", as1(handedRule, "C05.handed"))
+	add("C04", "C04.handed (core.commit invokes the application's commit callback exactly once per block: before every return, and never a second time — no retry above the proxy; see C02.handed).", as1(handedRule, "C04.handed"))
 	add("C10", "C10.recorded (a block signature is recorded only for a member of the validator-set of the block's round — not for any peer of the repertoire; see C09.record).", sharedAs(c09record, map[string]string{"C09.record": "C10.recorded"}))
 	add("C11", "C11.norefusal (Hashgraph.Bootstrap returns only errors its callees returned: it makes no acceptance decision of its own about the database it replays).", as1(noRefusalRule, "C11.norefusal"))
 	add("C01", "C01.accepted (the accepted receipts of a block are applied in the block's own order, each by the operation of its type, straight in the loop over the receipts — not regrouped in a map: the resulting validator-set, whose order is hashed, is the same on every node; see C10.accepted).", sharedAs(c10accepted, map[string]string{"C10.accepted": "C01.accepted"}))
@@ -1802,6 +1803,17 @@ func handedRule(p *Prog, r *Report, rule string) {
 		}
 	}
 	r.Check(ok, rule, "commit:block-always-handed-to-the-application", p.pos(fn.Pos()), fnName(fn), "the commit callback runs before every return", why)
+	// … and at most once: no call of the callback can follow another one (a retry after an error hands the block to an
+	// application that may already have applied it — the acknowledgement, not the block, was lost)
+	twice := ""
+	for _, c1 := range sites {
+		for _, c2 := range sites {
+			if canFollow(c1, c2) {
+				twice = p.ipos(c2) + " after " + p.ipos(c1)
+			}
+		}
+	}
+	r.Check(twice == "", rule, "commit:block-handed-at-most-once", p.pos(fn.Pos()), fnName(fn), "one invocation of the commit callback per block", "the commit callback can be invoked again ("+twice+") for the same block: an application that applied the block but whose answer was lost or late applies every transaction of the block a second time")
 }
 
 /* ---------- C11.norefusal (seed C11i): Bootstrap refuses a database only when a callee reported a failure ---------- */
